@@ -174,8 +174,8 @@ theorem attr_step {d : Disk} (inv : Inv d) {p : Bytes} (a : RootArg p) (set clea
         · -- not a long-name part: bit 8 is clear
           have := hshown'.2.2.2.1
           omega
-        · obtain ⟨nm', ty', n1, n2, n3, n4, _⟩ := hgood
+        · obtain ⟨nm', ty', n1, n2, n3, n4, _, n6, n7⟩ := hgood
           exact ⟨nm', ty', by rw [fileNameToSplit_congr q2]; exact n1, by rw [entName_congr q2]; exact n2, n3, n4,
-            fun hd => by rw [hbit4'] at hd; cases hd⟩
+            (fun hd => by rw [hbit4'] at hd; cases hd), n6, n7⟩
 
 end A2Verif.FsFat
